@@ -1,17 +1,26 @@
 #!/bin/bash
-# usage: tools/seed_regress.sh [ids...]  — re-runs every kept seeded change (or the given seed ids) against the
-# current checks through tools/seed_run.sh (scratch worktree; /repo untouched) and writes seeded/REGRESSION.txt.
-# The check run is the first property named in the seed's detected_by list.
+# usage: tools/seed_regress.sh [shards]  — re-runs every kept seeded change against the current checks through
+# tools/seed_run.sh (scratch worktree; /repo untouched), in <shards> parallel shards (default 4), and writes
+# seeded/REGRESSION.txt. The check run is the first property named in the seed's detected_by list.
 cd /verif
-out=seeded/REGRESSION.txt
-tmp=$(mktemp)
-ids="$@"
-[ -z "$ids" ] && ids=$(ls seeded | grep -v REGRESSION)
-for sid in $ids; do
-  d=seeded/$sid
-  [ -f $d/meta.json ] || continue
-  chk=$(python3 -c "import json,re;m=json.load(open('$d/meta.json'));print(re.match(r'(C\d+)',m['detected_by'][0]).group(1))")
-  res=$(tools/seed_run.sh $d quick $chk 2>&1 | tail -1 | cut -c1-160)
-  echo "$sid $res" | tee -a $tmp
+n=${1:-4}
+ids=($(ls seeded | grep -v REGRESSION))
+tmp=$(mktemp -d)
+for s in $(seq 0 $((n-1))); do
+  (
+    i=0
+    for sid in "${ids[@]}"; do
+      if [ $((i % n)) -eq $s ]; then
+        d=seeded/$sid
+        chk=$(python3 -c "import json,re;m=json.load(open('$d/meta.json'));print(re.match(r'(C\d+)',m['detected_by'][0]).group(1))")
+        res=$(tools/seed_run.sh $d quick $chk 2>&1 | tail -1 | cut -c1-160)
+        echo "$sid $res" >> $tmp/shard$s
+      fi
+      i=$((i+1))
+    done
+  ) &
 done
-if [ -z "$1" ]; then mv $tmp $out; else cat $tmp; rm -f $tmp; fi
+wait
+cat $tmp/shard* | sort > seeded/REGRESSION.txt
+rm -rf $tmp
+echo "detected: $(grep -c ' DETECTED ' seeded/REGRESSION.txt) of ${#ids[@]}"
